@@ -610,7 +610,7 @@ def run(ctx):
     cov = {"states": ctx.cov.get("states", 0), "transitions": ctx.cov.get("transitions", 0),
            "traces_validated_against_impl": ctx.cov.get("traces_validated_against_impl", 0),
            "evaluations": ctx.cov.get("schedules", 0), "distinct_nontrivial": ctx.cov.get("schedules", 0), "exhaustive": False}
-    ctx.assumptions += ["interleavings are explored at pthread-call granularity plus the point after each unlock; complete only if the code between two such points is race-free (C14)",
+    ctx.assumptions += ["interleavings are explored at pthread-call granularity plus the points after each unlock and after each create; complete only if the code between two such points is race-free (C14)",
                         "pool alone: every schedule with at most 1-2 preemptions is enumerated for the small configurations (three fixed policies at blocking points); otherwise schedules are seeded (uniform, and with up to 3 forced preemptions)"]
     return core.finish(ctx, LEVEL, cov, rule="schedules = complete pool life cycles under the deterministic scheduler (pool alone: PoolAbs events; pooled writers: file identity; pooled sorters: abstract sorter), distinct seeds")
 
